@@ -358,6 +358,60 @@ class Interp:
         ast.fix_missing_locations(new_node)
         return [pre, new_node]
 
+    def st_Match(self, node: Any, st: State, ctx: Ctx) -> List[Tuple[State, Any]]:
+        """`match subject:` over value / singleton / or / wildcard / capture / class-with-keyword patterns is the
+        if/elif chain with the same tests in the same order; anything else (sequence, mapping, star patterns) is
+        outside the vocabulary."""
+        self._comp_n = getattr(self, "_comp_n", 0) + 1
+        tmp = f"$match{self._comp_n}"
+        subj = ast.Name(id=tmp, ctx=ast.Load())
+
+        def test_of(p: Any, pre: List[ast.stmt]) -> ast.expr:
+            if isinstance(p, ast.MatchValue):
+                return ast.Compare(left=subj, ops=[ast.Eq()], comparators=[p.value])
+            if isinstance(p, ast.MatchSingleton):
+                return ast.Compare(left=subj, ops=[ast.Is()], comparators=[ast.Constant(value=p.value)])
+            if isinstance(p, ast.MatchOr):
+                return ast.BoolOp(op=ast.Or(), values=[test_of(q, pre) for q in p.patterns])
+            if isinstance(p, ast.MatchAs) and p.pattern is None:
+                if p.name is not None:
+                    pre.append(ast.Assign(targets=[ast.Name(id=p.name, ctx=ast.Store())], value=subj))
+                return ast.Constant(value=True)
+            if isinstance(p, ast.MatchClass) and not p.patterns and all(isinstance(q, (ast.MatchValue, ast.MatchSingleton)) for q in p.kwd_patterns):
+                tests: List[ast.expr] = [ast.Call(func=ast.Name(id="isinstance", ctx=ast.Load()), args=[subj, p.cls], keywords=[])]
+                for a_, q in zip(p.kwd_attrs, p.kwd_patterns):
+                    left = ast.Attribute(value=subj, attr=a_, ctx=ast.Load())
+                    if isinstance(q, ast.MatchValue):
+                        tests.append(ast.Compare(left=left, ops=[ast.Eq()], comparators=[q.value]))
+                    else:
+                        tests.append(ast.Compare(left=left, ops=[ast.Is()], comparators=[ast.Constant(value=q.value)]))
+                return ast.BoolOp(op=ast.And(), values=tests) if len(tests) > 1 else tests[0]
+            raise AnalysisError(f"unsupported match pattern {type(p).__name__} at {ctx.loc(node)}")
+
+        chain: Optional[ast.If] = None
+        last: Optional[ast.If] = None
+        for case in node.cases:
+            pre: List[ast.stmt] = []
+            t = test_of(case.pattern, pre)
+            if case.guard is not None:
+                if pre:
+                    raise AnalysisError(f"match capture with a guard at {ctx.loc(node)}")
+                t = ast.BoolOp(op=ast.And(), values=[t, case.guard])
+            cur = ast.If(test=t, body=pre + list(case.body), orelse=[])
+            if chain is None:
+                chain = cur
+            else:
+                assert last is not None
+                last.orelse = [cur]
+            last = cur
+        stmts: List[ast.stmt] = [ast.Assign(targets=[ast.Name(id=tmp, ctx=ast.Store())], value=node.subject)]
+        if chain is not None:
+            stmts.append(chain)
+        for s_ in stmts:
+            ast.copy_location(s_, node)
+            ast.fix_missing_locations(s_)
+        return self.exec_block(stmts, st, ctx)
+
     def st_Pass(self, node: ast.Pass, st: State, ctx: Ctx) -> List[Tuple[State, Any]]:
         return [(st, None)]
 
@@ -931,8 +985,17 @@ class Interp:
                     if sig is not None:
                         out.append((s, top("raised"), sig))
                         continue
+                    n_ev0 = len(s.events)
                     for o in self.call_user_forking(fv, args, kwargs, s, ctx, inner, awaited):
                         if o.kind == "return":
+                            if awaited and not getattr(target, "is_async", True):
+                                # `await helper()` where the plain function `helper` RETURNS the awaitable of an external
+                                # call it made (return open_connection(...)): that call is awaited here
+                                import dataclasses as _dc
+                                for i_ in range(n_ev0, len(o.state.events)):
+                                    e_ = o.state.events[i_]
+                                    if e_.kind == "call" and not e_.awaited and e_.result is not None and e_.result == o.value:
+                                        o.state.events[i_] = _dc.replace(e_, awaited=True)
                             out.append((o.state, o.value, None))
                         else:
                             out.append((o.state, top("raised"), ("raise", o.value)))
@@ -1444,6 +1507,11 @@ class Interp:
             return self.sym_object(st, ci, v[1])
         return v
 
+    def ev_NamedExpr(self, node: ast.NamedExpr, st: State, ctx: Ctx) -> Term:
+        v = self.eval(node.value, st, ctx)
+        self.assign(node.target, v, st, ctx)
+        return v
+
     def ev_Await(self, node: ast.Await, st: State, ctx: Ctx) -> Term:
         inner = node.value
         if isinstance(inner, ast.Call):
@@ -1465,6 +1533,15 @@ class Interp:
                 return self.stubs[key](self, a, kwargs, st, ctx, node)
             if t == "class" and fv[1].enum is not None:
                 return self.lib.enum_by_value(self, fv[1], args, st, ctx, node)
+            if t == "class" and any(b.split(".")[-1] == "NamedTuple" for b in fv[1].ext_bases) and not fv[1].find_method("__new__"):
+                # a typing.NamedTuple: the tuple of its fields in declaration order
+                names = [st_.target.id for st_ in fv[1].node.body if isinstance(st_, ast.AnnAssign) and isinstance(st_.target, ast.Name)]
+                vals = list(args)
+                for nm in names[len(vals):]:
+                    if nm in kwargs:
+                        vals.append(kwargs[nm])
+                if len(vals) == len(names):
+                    return ("tuple", tuple(vals))
             return self.call_user_nested(fv, args, kwargs, st, ctx, node)
         if t == "ext":
             return self.lib.call_ext(self, fv[1], args, kwargs, st, ctx, node, awaited)
@@ -1511,6 +1588,20 @@ class Interp:
                 return self.eval(lam.body, st, Ctx(fv[3], fv[3].module if fv[3] else ctx.module, ctx.depth))
             finally:
                 st.env = saved
+        if isinstance(lam, ast.FunctionDef):
+            body = [b for b in lam.body if not (isinstance(b, ast.Expr) and isinstance(b.value, ast.Constant))]
+            a_ = lam.args
+            if (len(body) == 1 and isinstance(body[0], ast.Return) and body[0].value is not None and not a_.vararg and not a_.kwarg
+                    and not a_.kwonlyargs and not a_.defaults and len(a_.args) == len(args) and not lam.decorator_list):
+                saved = st.env
+                env = dict(closure)
+                env.update({k: v for k, v in saved.items() if k not in env})
+                env.update(dict(zip([x.arg for x in a_.args], args)))
+                st.env = env
+                try:
+                    return self.eval(body[0].value, st, Ctx(fv[3], fv[3].module if fv[3] else ctx.module, ctx.depth))
+                finally:
+                    st.env = saved
         raise AnalysisError(f"nested def call at {ctx.loc(node)}")
 
     def ev_Lambda(self, node: ast.Lambda, st: State, ctx: Ctx) -> Term:
@@ -1643,6 +1734,11 @@ class Interp:
                 stepv = self.eval(node.slice.step, st, ctx)
                 if is_c(stepv) and stepv[1] == -1 and lo is None and hi is None:
                     return self.lib.reverse_value(self, base, st, ctx, node)
+                if (is_c(stepv) and stepv[1] == -1 and lo is not None and hi is not None and is_c(lo) and is_c(hi)
+                        and isinstance(lo[1], int) and isinstance(hi[1], int) and 0 <= hi[1] < lo[1]):
+                    # x[a:b:-1] takes x[a], x[a-1], ..., x[b+1]: the reversal of x[b+1:a+1]
+                    inner_ = self.lib.slice_value(self, base, c(hi[1] + 1), c(lo[1] + 1), st, ctx, node)
+                    return self.lib.reverse_value(self, inner_, st, ctx, node)
                 if not (is_c(stepv) and stepv[1] in (1, None)):
                     raise AnalysisError(f"slice step at {ctx.loc(node)}")
             return self.lib.slice_value(self, base, lo, hi, st, ctx, node)
